@@ -239,7 +239,11 @@ impl LruDiskCache {
                         remove_path
                     );
                 } else {
-                    panic!(
+                    // Not being able to remove an entry (it was replaced by a
+                    // directory, permissions changed, I/O error, ...) must not take
+                    // the cache down: a panic here poisons the mutex the disk cache
+                    // lives behind and every later request fails.
+                    warn!(
                         "Error removing file from cache: `{:?}`: {}, {:?}",
                         remove_path,
                         e,
